@@ -91,10 +91,56 @@ func RunSelftest(prop string, neutralProps []string) ([]selfRow, bool) {
 	return runSelftest(prop, neutralProps, 0)
 }
 
+// propsForFiles: the properties whose anchors (properties.jsonl) name one of the files.
+func propsForFiles(files []string) []string {
+	b, err := os.ReadFile(filepath.Join(verifDir, "properties.jsonl"))
+	if err != nil {
+		return nil
+	}
+	var out []string
+	for _, l := range strings.Split(string(b), "\n") {
+		var p struct {
+			ID      string `json:"id"`
+			Anchors struct {
+				Files []string `json:"files"`
+			} `json:"anchors"`
+		}
+		if json.Unmarshal([]byte(l), &p) != nil || p.ID == "" {
+			continue
+		}
+		for _, f := range files {
+			if contains(p.Anchors.Files, f) {
+				out = append(out, p.ID)
+				break
+			}
+		}
+	}
+	return out
+}
+
+func patchFiles(patch string) []string {
+	b, _ := os.ReadFile(patch)
+	var out []string
+	for _, l := range strings.Split(string(b), "\n") {
+		if strings.HasPrefix(l, "+++ ") {
+			f := strings.TrimSpace(strings.TrimPrefix(l, "+++ "))
+			f = strings.TrimPrefix(strings.TrimPrefix(f, "b/"), "a/")
+			out = append(out, f)
+		}
+	}
+	return out
+}
+
 // runSelftest: maxNeutral > 0 limits the neutral patches (chosen deterministically per property).
+// In a full run (prop == "") a neutral patch is checked against four of the
+// properties anchored in the files it touches (all of them with
+// GTV_SELFTEST_ALLPROPS=1); corpus entries run three at a time.
 func runSelftest(prop string, neutralProps []string, maxNeutral int) ([]selfRow, bool) {
-	var rows []selfRow
-	allOK := true
+	type job struct {
+		ce    corpusEntry
+		props []string
+	}
+	var jobs []job
 	neutralSeen := 0
 	for ci, ce := range loadCorpus() {
 		if !ce.MustFail && maxNeutral > 0 {
@@ -117,48 +163,83 @@ func runSelftest(prop string, neutralProps []string, maxNeutral int) ([]selfRow,
 		} else if prop != "" {
 			props = []string{prop}
 		} else {
-			props = neutralProps
+			rel := propsForFiles(patchFiles(ce.Patch))
+			if len(rel) == 0 {
+				rel = neutralProps
+			}
+			if os.Getenv("GTV_SELFTEST_ALLPROPS") == "" && len(rel) > 4 {
+				h := 0
+				for _, c := range ce.Name {
+					h = (h*31 + int(c)) % 1000003
+				}
+				var pick []string
+				for k := 0; k < 4; k++ {
+					pick = append(pick, rel[(h+k*(len(rel)/4))%len(rel)])
+				}
+				rel = pick
+			}
+			props = rel
 		}
 		if len(props) == 0 {
 			continue
 		}
-		dir, err := scratchRepo(ce.Patch)
-		if err != nil {
-			rows = append(rows, selfRow{Entry: ce.Name, Note: err.Error(), OK: !ce.MustFail})
-			if ce.MustFail {
-				allOK = false
+		jobs = append(jobs, job{ce, props})
+	}
+	results := make([][]selfRow, len(jobs))
+	oks := make([]bool, len(jobs))
+	sem := make(chan struct{}, 3)
+	done := make(chan int, len(jobs))
+	for ji, j := range jobs {
+		sem <- struct{}{}
+		go func(ji int, j job) {
+			defer func() { <-sem; done <- ji }()
+			ce := j.ce
+			oks[ji] = true
+			dir, err := scratchRepo(ce.Patch)
+			if err != nil {
+				results[ji] = append(results[ji], selfRow{Entry: ce.Name, Note: err.Error(), OK: !ce.MustFail})
+				oks[ji] = !ce.MustFail
+				return
 			}
-			continue
-		}
-		caught := false
-		for _, p := range props {
-			out, code := captureCheck(CheckOpts{Property: p, Tier: "quick", Repo: dir, NoEvidence: true})
-			row := selfRow{Entry: ce.Name, Property: p, Exit: code}
-			for _, l := range strings.Split(out, "\n") {
-				if strings.HasPrefix(l, "VIOLATION ") {
-					if i := strings.Index(l, "obligation="); i >= 0 {
-						row.Violations = append(row.Violations, strings.Fields(l[i+len("obligation="):])[0])
+			defer os.RemoveAll(dir)
+			caught := false
+			for _, p := range j.props {
+				out, code := captureCheck(CheckOpts{Property: p, Tier: "quick", Repo: dir, NoEvidence: true})
+				row := selfRow{Entry: ce.Name, Property: p, Exit: code}
+				for _, l := range strings.Split(out, "\n") {
+					if strings.HasPrefix(l, "VIOLATION ") {
+						if i := strings.Index(l, "obligation="); i >= 0 {
+							row.Violations = append(row.Violations, strings.Fields(l[i+len("obligation="):])[0])
+						}
+					}
+					if strings.HasPrefix(l, "UNDECIDED ") {
+						row.Undecided++
 					}
 				}
-				if strings.HasPrefix(l, "UNDECIDED ") {
-					row.Undecided++
+				if ce.MustFail {
+					row.OK = code == 1 && len(row.Violations) > 0
+					caught = caught || row.OK
+				} else {
+					row.OK = len(row.Violations) == 0 && code != 1
+					if !row.OK {
+						oks[ji] = false
+					}
 				}
+				results[ji] = append(results[ji], row)
 			}
-			if ce.MustFail {
-				row.OK = code == 1 && len(row.Violations) > 0
-				caught = caught || row.OK
-			} else {
-				row.OK = len(row.Violations) == 0 && code != 1
-				if !row.OK {
-					allOK = false
-				}
+			if ce.MustFail && !caught {
+				oks[ji] = false
 			}
-			rows = append(rows, row)
-		}
-		if ce.MustFail && !caught {
-			allOK = false
-		}
-		os.RemoveAll(dir)
+		}(ji, j)
+	}
+	for range jobs {
+		<-done
+	}
+	var rows []selfRow
+	allOK := true
+	for ji := range jobs {
+		rows = append(rows, results[ji]...)
+		allOK = allOK && oks[ji]
 	}
 	return rows, allOK
 }
